@@ -297,6 +297,23 @@ fn reads(map: &Map, key: &MasterKey, tpe: u8, id: &Id, blobs: &[(bool, Id)]) -> 
     }
 }
 
+/// every snapshot of the repository held in `map` really restored to disk: snapshot id -> (relative path -> (type, content))
+fn restore_all(map: &Map, key: &MasterKey) -> Outcome<BTreeMap<String, BTreeMap<String, (String, Vec<u8>)>>> {
+    let st = MemStore::from_map(map.clone());
+    st.0.log_reads.store(false, std::sync::atomic::Ordering::Relaxed);
+    let h = st.handle(1);
+    scn::guard(|| {
+        let repo = scn::open(&h, key)?.to_indexed()?;
+        let mut out = BTreeMap::new();
+        for sn in repo.get_all_snapshots()? {
+            let dir = tempfile::tempdir().map_err(|e| rustic_core::RusticError::new(rustic_core::ErrorKind::InputOutput, e.to_string()))?;
+            scn::restore_to(&repo, &sn, &dir.path().join("d"), &rustic_core::RestoreOptions::default())?;
+            _ = out.insert(sn.id.to_hex().to_string(), scn::read_dir_tree(&dir.path().join("d")));
+        }
+        Ok(out)
+    })
+}
+
 pub fn run_store(a: &Args) {
     scn::silence_panics();
     let mut out = Out::create(&a.str("out", "sealed-store.ndjson"));
@@ -354,6 +371,13 @@ pub fn run_store(a: &Args) {
         // ---- tamper grid on the final state
         let base = b.store.snapshot();
         let files: Vec<((u8, Id), Bytes)> = base.iter().filter(|(k, _)| k.0 != 2).map(|(k, v)| (*k, v.clone())).collect();
+        let restored0 = match restore_all(&base, &b.key) {
+            Outcome::Ok(r) => r,
+            x => {
+                out.rec(&json!({"e":"toolerr","what":"undamaged restore failed","tpe":"all","msg":[x.msg()]}));
+                continue;
+            }
+        };
         for ((t, id), data) in &files {
             let len = data.len();
             let (layout, blobs, hstart): (Vec<(u32, u32)>, Vec<(bool, Id)>, usize) = if *t == 4 {
@@ -429,7 +453,19 @@ pub fn run_store(a: &Args) {
                         json!({"i": i + 1, "res": c})
                     })
                     .collect();
+                // the restore read path (its own code: commands/restore.rs reads the packs directly), for pack faults
+                let restore = if *t == 4 {
+                    match restore_all(&m, &b.key) {
+                        Outcome::Ok(r) if r == restored0 => "same",
+                        Outcome::Ok(_) => "diff",
+                        Outcome::Err(_) => "err",
+                        Outcome::Panic(_) => "panic",
+                    }
+                } else {
+                    "skipped"
+                };
                 let d = desc.as_object_mut().unwrap();
+                _ = d.insert("restore".into(), json!(restore));
                 _ = d.insert("e".into(), json!("tamper"));
                 _ = d.insert("tpe".into(), json!(tname(*t)));
                 _ = d.insert("file".into(), json!(id.to_hex().as_str()[..8]));
